@@ -129,6 +129,13 @@ CLAIMED = {
         "Trusted: einxverif/loopsem.py; adapt_with_vmap is not executable with numpy and is not covered.",
         "DESIGN.md §4 C15",
     ),
+    "C06": (
+        "history-based property testing: generated call histories run in one interpreter are compared step by step with the same call in a pristine forked interpreter (differential against a zygote)",
+        "Generated-input search over call histories with exact repetitions, hash-equal twins, failing calls at every stage, adapters, solve_* and nested with-blocks; every step's outcome digest "
+        "(values, code up to naming, exception class) must equal the outcome of that call alone in a pristine fork, and no with-stack / tracing state may leak. Exploration only.",
+        "Trusted: fork() of a zygote that imported einx without calling it as stand-in for a fresh interpreter; digests compare floats with rtol 1e-8.",
+        "DESIGN.md §4 C06, §3 S5",
+    ),
 }
 NOT_YET = "check not built yet in this round (see DESIGN.md §8 build order); the property has an executable oracle and will be claimed once its check is registered"
 
